@@ -281,6 +281,7 @@ def run_search(repo: Repo, res: Result) -> None:
                     kind="dominance",
                 )
             n += _exempt_sets_exact(repo, res, m, subj, own, exc, rec)
+            n += _own_subtree_expanded(repo, res, m, subj, own, exc)
             # the subject set skips exactly itself when accumulating the excluded set
             for st in m.subtree_sites:
                 if st.collection is None or st.target not in exc:
@@ -365,6 +366,52 @@ def _set_mutations(m: S.SearchModel, name: str) -> list[tuple[ast.AST, str, list
         elif isinstance(n, ast.AnnAssign) and isinstance(n.target, ast.Name) and n.target.id == name and n.value is not None:
             out.append((n, "bind", [n.value]))
     return out
+
+
+def _own_subtree_expanded(repo: Repo, res: Result, m: S.SearchModel, subj: str, own: list[str], exc: list[str]) -> int:
+    """A named module stands for itself and all its descendants - as a *subject* too: every node of the subject's own sub-tree is
+    expanded (its imports are looked at), whatever else it belongs to.  The test that keeps excluded objects from being expanded
+    must therefore not apply to a node of the subject's sub-tree (`pkg should not import anything except pkg.child`: the imports of
+    pkg.child are still imports of pkg).  Only the parent identifier of a 'sub modules of' subject is left out.
+
+    Decided on the conditions under which the neighbour lookup of a popped node is reached: with `node in own`, not yet visited
+    and not (subject is 'sub modules of' and node is its identifier) the lookup must be reached."""
+    fi = m.fi
+    n = 0
+    single = S._single_assignments(fi.node)
+    for c in (m.neighbour_calls or [m.neighbour_call]):
+        g = m.guard_of(c)
+        pop = m.popped
+        mentions = re.compile(rf"(?<![\w.]){re.escape(pop)}(?![\w])")
+        flag = atom(f"bool({subj}.{S.PARENT_FLAG})")
+        is_parent = S.to_formula(ast.Compare(left=ast.Name(id=pop, ctx=ast.Load()), ops=[ast.Eq()], comparators=[ast.Attribute(value=ast.Name(id=subj, ctx=ast.Load()), attr=S.NODE_ATTR, ctx=ast.Load())]), m.subst)
+        premise = f_and([f_or([atom(f"{pop} in {o}") for o in own]), f_not(f_and([flag, is_parent]))] + [f_not(atom(f"{pop} in {v}")) for v in m.visited_sets])
+        free = sorted(a for a in atoms_of(g) if a not in atoms_of(premise) and not mentions.search(a))
+        n += 1
+        key = f"{fi.relpath}::{getattr(fi, 'shown', fi.qualname)}::every node of the subject's sub-tree is expanded"
+        try:
+            ok = _implies_for_some(premise, g, free)
+        except AnalysisError as err:
+            res.undecide("C01.S", key, f"the condition under which `{norm(c)}` is reached is too large to enumerate ({err})", where(fi, c))
+            continue
+        if ok:
+            res.add("C01.S", key, True, f"a popped node of `{own[0]}` always reaches `{norm(c)}` (only the parent identifier of a 'sub modules of' subject is left out)", where(fi, c), kind="dominance")
+            continue
+        # which test keeps an own node from being expanded
+        bad = [x for x in exc if f"{pop} in {x}" in atoms_of(g)]
+        other = sorted(a for a in atoms_of(g) if mentions.search(a) and a not in atoms_of(premise) and not any(a == f"{pop} in {x}" for x in exc))
+        if bad:
+            test = next((t for t in ast.walk(m.loop) if isinstance(t, ast.Compare) and len(t.ops) == 1 and isinstance(t.ops[0], (ast.In, ast.NotIn)) and norm(t.left) == pop and isinstance(S.strip(t.comparators[0]), ast.Name) and (S.strip(t.comparators[0]).id == bad[0] or bad[0] in {x.id for x in ast.walk(single.get(S.strip(t.comparators[0]).id, ast.Constant(value=None))) if isinstance(x, ast.Name)})), None)
+            st = stmt_of(test) if test is not None else stmt_of(c)
+            res.add(
+                "C01.S", key, False,
+                f"`{norm(st)[:80]}` also skips nodes of the subject's own sub-tree `{own[0]}`: a module of the subject that lies inside an excepted object (subject `pkg`, object `pkg.child`; a regex that matches a package and its children) is never expanded, "
+                f"so its imports of something else are never reported (`{norm(c)}` is only reached under `{pop} not in {bad[0]}`; the skip must spare `{own[0]}`, e.g. skip `{bad[0]} - {own[0]}`)",
+                where(fi, st), kind="dominance",
+            )
+        else:
+            res.undecide("C01.S", key, f"whether a popped node of `{own[0]}` reaches `{norm(c)}` also depends on {other or sorted(atoms_of(g))}, which the model cannot relate to the subject's sub-tree or the excluded objects", where(fi, c))
+    return n
 
 
 def _exempt_sets_exact(repo: Repo, res: Result, m: S.SearchModel, subj: str, own: list[str], exc: list[str], rec: list) -> int:
@@ -527,12 +574,13 @@ def run_closure(repo: Repo, res: Result, rule_id: str = "C03.R1") -> int:
         res.add(rule_id, repo.key(fi, anchor) + " [worklist start]", ok, f"worklist starts from {S.SUBMODULES}(graph, {subj})" if ok else f"worklist starts from {m.worklist_sources}, not from the subject's subtree `{own[0]}`", where(fi, anchor), kind="structural")
         n += 1
         if pushes:
-            ok = all(any(implies(m.guard_of(c), f_not(atom(f"{m.popped} in {x}"))) for x in exc) for c in (m.neighbour_calls or [m.neighbour_call]))
+            in_own = [atom(f"{m.popped} in {o}") for o in own]
+            ok = all(any(implies(m.guard_of(c), f_or([f_not(atom(f"{m.popped} in {x}")), *in_own])) for x in exc) for c in (m.neighbour_calls or [m.neighbour_call]))
             unresolved = [] if ok else [x for c in (m.neighbour_calls or [m.neighbour_call]) for x in unresolved_subtree_sets(m, m.guard_of(c), [m.popped])]
             if unresolved:
                 res.undecide(rule_id, f"{fi.relpath}::{shown}::excluded nodes are not expanded", f"the expansion of `{m.popped}` is guarded by a test of `{unresolved[0]}`, which is computed from sub-tree lookups in a way the model cannot relate to `{exc[0]}`", where(fi, m.neighbour_call))
                 continue
-            res.add(rule_id, f"{fi.relpath}::{shown}::excluded nodes are not expanded", ok, "popped nodes in the excluded set are skipped" if ok else f"a popped node in `{exc[0]}` is expanded: imports of the rule's objects are reported as the subject's", where(fi, m.neighbour_call), kind="dominance")
+            res.add(rule_id, f"{fi.relpath}::{shown}::excluded nodes are not expanded", ok, "popped nodes in the excluded set are skipped (unless they belong to the subject itself)" if ok else f"a popped node in `{exc[0]}` is expanded: imports of the rule's objects are reported as the subject's", where(fi, m.neighbour_call), kind="dominance")
         else:
             res.add(rule_id, f"{fi.relpath}::{shown}::no push", True, "the search never extends its worklist beyond the subject's subtree", where(fi, fi.node), nontrivial=False)
     return n
